@@ -543,3 +543,80 @@ def guard_atoms(fn, node, var):
                 atoms.add((_re.sub(r'\b%s\b' % _re.escape(var), 'X', t), tr))
         out.add(frozenset(atoms))
     return frozenset(out)
+
+
+class TryRaises(Quiet):
+    """Exception edges exactly where the code expects them: a call or subscript lexically inside a `try` body may raise
+    what that try's handlers name (nothing raises elsewhere)."""
+
+    def __init__(self, program, fn):
+        super().__init__(program)
+        self.where = {}
+        for t in ast.walk(fn.node):
+            if isinstance(t, ast.Try):
+                types = []
+                for h in t.handlers:
+                    if h.type is None:
+                        types.append('Exception')
+                    elif isinstance(h.type, ast.Tuple):
+                        types += [txt(x).split('.')[-1] for x in h.type.elts]
+                    else:
+                        types.append(txt(h.type).split('.')[-1])
+                for st in t.body:
+                    for n in ast.walk(st):
+                        self.where.setdefault(id(n), [])
+                        for ty in types:
+                            if ty not in self.where[id(n)]:
+                                self.where[id(n)].append(ty)
+
+    def _types(self, op):
+        tys = self.where.get(id(op.node), ())
+        return tuple('KeyError' if t in ('Exception', 'BaseException', 'LookupError') else t for t in tys)
+
+    def call_raises(self, walker, op, st):
+        return self._types(op)
+
+    def sub_raises(self, walker, op, st):
+        return self._types(op)
+
+
+def check_sentinel_default(ctx, prog, fn, recv=None, rule='T14.default', model=None):
+    """A parameter `default=<SENTINEL>` means "no default given".  On every path:
+      * returning the parameter itself requires that the path established `default is not SENTINEL`;
+      * raising after the path established `default is not SENTINEL` (a default WAS given) is wrong when the raise is the
+        function's own KeyError/IndexError for "missing" (the default must be used instead).
+    Decided on the tests the path took; paths that never test the sentinel are left alone."""
+    a = fn.node.args
+    pos = a.posonlyargs + a.args
+    cands = []
+    for p_, d in zip(pos[len(pos) - len(a.defaults):], a.defaults):
+        if isinstance(d, ast.Name) and d.id.isupper() and d.id.startswith('_') and p_.arg == 'default':
+            cands.append((p_.arg, d.id))
+    if not cands:
+        return 0
+    if model is None:
+        model = TryRaises(prog, fn)
+    w, paths = paths_of(prog, fn, recv=recv, model=model)
+    n = 0
+    for param, sent in cands:
+        for p in paths:
+            given = None
+            for t, truth, o in tests_on(w, p):
+                t2 = cmp_text(o.node, param) if isinstance(o.node, ast.AST) else t
+                e, neg = strip_not(o.node) if isinstance(o.node, ast.AST) else (None, False)
+                tt = cmp_text(e, param) if e is not None else t
+                tr = (o.info != neg)
+                if tt == '%s is %s' % (param, sent):
+                    given = not tr
+                elif tt == '%s is not %s' % (param, sent):
+                    given = tr
+            if p.kind == 'return' and p.outcome[1] is not None and txt(p.outcome[1]) == param:
+                n += 1
+                ctx.ob(rule, fn.fq, 'the `%s` parameter is returned only on paths that established a default was given '
+                       '(`%s is not %s`)' % (param, param, sent), given is True, loc=fn.loc, path=p.describe() if given is not True else None)
+            elif p.kind == 'raise' and given is True and p.outcome[1] in ('KeyError', 'IndexError') and \
+                    any(o.kind == 'raise' and o.depth == 0 for o in p.ops[-2:]):
+                n += 1
+                ctx.ob(rule, fn.fq, 'with a default given, the function does not raise its own "missing" error', False, loc=fn.loc,
+                       path=p.describe())
+    return n
